@@ -46,7 +46,8 @@ pub fn run(r: &mut Report) {
         let d = tmpdir();
         let mk = |name: &str, m: (&str, u8), p: (&str, u8), c: &str, out: &str| LinkMetadataBuilder::new().name(name.to_string())
             .materials(artifacts(&[m])).products(artifacts(&[p])).command(cmd(&[c, name]))
-            .byproducts(ByProducts::new().set_stdout(out.to_string()).set_stderr(String::new()).set_return_value(0)).build().unwrap();
+            .byproducts(ByProducts::new().set_stdout(out.to_string()).set_stderr(String::new()).set_return_value(0).set_other_field("extra".into(), out.to_string()))
+            .env(Some([("RECORDED_BY".to_string(), name.to_string())].into_iter().collect())).build().unwrap();
         let (n0, n1, n2) = (names[0], names[1], names[2]);
         write_link(d.path(), n0, ka.key_id(), &signed_link(&mk(n0, ("m", 1), ("x", 2), "fetch", "out-first"), &[&ka]));
         write_link(d.path(), n1, kb.key_id(), &signed_link(&mk(n1, ("x", 2), ("y", 3), "build", "out-middle"), &[&kb]));
@@ -61,6 +62,14 @@ pub fn run(r: &mut Report) {
             Ok(Err(e)) => format!("Err({})", e), Err(p) => format!("panic: {}", p) };
         let exp = format!("name=top materials=[\"m\"] products=[\"z\"] command={:?} stdout={:?}", cmd(&["pack", n2]), Some("out-last".to_string()));
         r.case("summary-all-fields-three-steps", json!({"steps": names}), &exp, obs.clone(), obs == exp);
+        // .. and nothing else: the summary equals, as a value, a link built from exactly those parts (no environment, no other member
+        // of any step finds its way in)
+        let last = mk(n2, ("y", 3), ("z", 4), "pack", "out-last");
+        let first = mk(n0, ("m", 1), ("x", 2), "fetch", "out-first");
+        let want = LinkMetadataBuilder::new().name("top".to_string()).materials(first.materials.clone()).products(last.products.clone()).byproducts(last.byproducts.clone()).command(last.command.clone()).build().unwrap();
+        let same = matches!(&res, Ok(Ok(mb)) if matches!(&mb.metadata, MetadataWrapper::Link(l) if *l == want));
+        r.case("summary-is-exactly-its-parts", json!({"steps": names}), &serde_json::to_string(&want).unwrap_or_default(),
+               match &res { Ok(Ok(mb)) => serde_json::to_string(&mb.metadata).unwrap_or_default(), other => format!("{:?}", other.as_ref().map(|x| x.as_ref().map(|_| ()).map_err(|e| e.to_string()))) }, same);
     }
     // delegation: step "a" of the parent is satisfied by a sub-layout signed by ka, with inner links in <dir>/a.<prefix(ka)>/
     #[derive(Clone, Copy, Debug)]
